@@ -213,5 +213,52 @@ Definition send_v2 (w : wallet) (sk : SK) (st : option acct) (ms : list rawmsg) 
       end
   end.
 
+(* SendV2 / Send with the clock: expiry = now + the wallet's configured lifetime *)
+Definition api_send_v2 (w : wallet) (sk : SK) (life_ns now_ns : Z) (st : option acct) (ms : list rawmsg)
+           (rnd : N) (wait : Z) (send_err : bool) (hist : list poll) : sent :=
+  send_v2 w sk st ms (expiry now_ns life_ns) rnd wait send_err hist.
+
 End Crypto.
+
+(** *** one Wallet object used many times.  The object is immutable after New:
+    every method computes its answer from (version, key, workchain, ids) alone and
+    hands out fresh values, so what a caller does to a returned value cannot
+    reach later answers.  [wop] are the calls of a history; [OMutate c] is the
+    caller overwriting, in place, the state-init it was handed last with c. *)
+Inductive wop :=
+| OStateInit                 (* w.StateInit() *)
+| OMutate (c : cell)         (* *si = ...  on the value returned last *)
+| OAddress                   (* w.GetAddress() *)
+| ONext (a : acct).          (* NextMessageParams(state) / the init Send attaches *)
+
+Inductive wans :=
+| AInit (r : res cell) | ADone | AAddr (r : res (Z * bytes)) | ANextP (r : res (N * option cell)).
+
+(* the answer of a FRESH wallet with the same parameters *)
+Definition fresh_answer (w : wallet) (op : wop) : wans :=
+  match op with
+  | OStateInit => AInit (state_init w)
+  | OMutate _ => ADone
+  | OAddress => AAddr (address w)
+  | ONext a => ANextP (next_params w a)
+  end.
+
+(* an object design: what the object keeps between calls and how a call uses it *)
+Record design := mkdesign {
+  d_state : Type;
+  d_init : d_state;
+  d_step : wallet -> d_state -> wop -> d_state * wans
+}.
+
+Fixpoint run_design (D : design) (w : wallet) (st : d_state D) (ops : list wop) : list wans :=
+  match ops with
+  | [] => []
+  | op :: t => let r := d_step D w st op in snd r :: run_design D w (fst r) t
+  end.
+
+(* the library: walletV3 / V4 / V5 / highload have no mutable field and
+   generateStateInit builds a new value on every call *)
+Definition library_design : design := mkdesign unit tt (fun w _ op => (tt, fresh_answer w op)).
+Definition run_history (w : wallet) (ops : list wop) : list wans := run_design library_design w tt ops.
+
 End Send.
